@@ -14,6 +14,11 @@ import (
 
 func init() {
 	simrt.Register(&simrt.Scenario{
+		Prop: "C07", Name: "gbn-window-forgery", Enumerated: true, Count: fixed(len(c09S)),
+		Run: c07Window, MaxOps: 1 << 40, Serial: true,
+		Doc: "for every sequence space s in 2..40 and 64, 65, 128, 129, 200, 254, 255: every window state (base, top) as the first pass through the sequence numbers leaves it (retransmission buffer filled only for the packets in flight), every forged ACK and NACK value 0..255: afterwards the window lies inside the one that was in flight and every slot a retransmission would read is filled (no nil packet for Serialize)",
+	})
+	simrt.Register(&simrt.Scenario{
 		Prop: "C07", Name: "gbn-deserialize", Enumerated: true, Count: fixed(257),
 		Run: c07Deserialize, MaxOps: 1 << 40, Serial: true,
 		Doc: "gbn.Deserialize on every byte string of length 0..3 and, per first byte, every 4-byte string (quick tier: 4-byte strings only for first bytes that are a packet type, 0x00 or 0xFF); successful results are re-serialized and deserialized again",
@@ -448,3 +453,49 @@ func c07Inject(rc *simrt.RunCtx) {
 
 // rcTier exposes the tier to enumerations whose size depends on it.
 func rcTier() string { return simrt.Tier() }
+
+// c07Window: forged ACK / NACK values against every window state of a queue
+// whose retransmission buffer holds exactly the packets in flight.
+func c07Window(rc *simrt.RunCtx) {
+	s := c09S[rc.Idx()%len(c09S)]
+	tm := NewTimeOutManager(nil)
+	q := newQueue(&queueCfg{s: uint8(s), sendPkt: func(p *PacketData) error { _ = p.Seq; return nil }}, tm)
+	cases := 0
+	for base := 0; base < s; base++ {
+		for top := 0; top < s; top++ {
+			for i := range q.content {
+				q.content[i] = nil
+			}
+			for x := base; x != top; x = (x + 1) % s {
+				q.content[x] = &PacketData{Seq: uint8(x)}
+			}
+			for v := 0; v < 256; v++ {
+				for kind := 0; kind < 2; kind++ {
+					q.sequenceBase, q.sequenceTop = uint8(base), uint8(top)
+					what := "ACK"
+					if kind == 0 {
+						q.processACK(uint8(v))
+					} else {
+						what = "NACK"
+						q.processNACK(uint8(v))
+					}
+					cases++
+					nb, nt := int(q.sequenceBase), int(q.sequenceTop)
+					if nb >= s || nt >= s || nt != top || !inCyclic(base, top, nb, s) {
+						rc.Violate("c07.window-outside-range", what, "s=%d base=%d top=%d, forged %s(%d): window became base=%d top=%d, outside the packets that were in flight", s, base, top, what, v, nb, nt)
+						return
+					}
+					for x := nb; x != nt; x = (x + 1) % s {
+						if q.content[x] == nil {
+							rc.Violate("c07.window-outside-range", what+"/nil-slot", "s=%d base=%d top=%d, forged %s(%d): window is now [%d,%d) and slot %d, which the next retransmission serializes, holds no packet", s, base, top, what, v, nb, nt, x)
+							return
+						}
+					}
+				}
+			}
+		}
+	}
+	rc.ProbeN("c07.window-forgery-cases", cases)
+	rc.Progress()
+	rc.Fault(fmt.Sprintf("forged-ack-nack-s=%d", s))
+}
